@@ -169,6 +169,7 @@ class Interp(object):
         self.lock = threading.Lock()
         # model of the extractor registry
         self.extractors = {}
+        self.late = []
         self.check_context = opts.get("check_context", True)
 
     # -- helpers ---------------------------------------------------------
@@ -888,7 +889,11 @@ class Interp(object):
                 cont(ctx)
 
         defer = node.get("defer", 0)
-        if defer <= 0:
+        if node.get("late") and self.opts.get("allow_late") and where != "process":
+            # unstructured: the continuation runs after the whole program
+            self.stat("late-continuation")
+            self.late.append(later)
+        elif defer <= 0:
             later()
         else:
             self.stat("deferred-continuation")
@@ -1080,7 +1085,11 @@ def run_program(program, sink="memory", opts=None, destinations=None, before=Non
 
         def go():
             try:
-                interp.exec_nodes(program, Ctx())
+                try:
+                    interp.exec_nodes(program, Ctx())
+                finally:
+                    while interp.late:
+                        interp.late.pop(0)()
             except HarnessError:
                 raise
             except Abort:
@@ -1321,7 +1330,8 @@ def programs(max_nodes=12, faults=False, remote=True, kinds=None, msg_kinds=None
         if remote:
             options.extend([
                 st.builds(
-                    lambda text, where, defer, body: {"op": "remote", "text": text, "where": where, "defer": defer, "body": body},
+                    lambda late, text, where, defer, body: {"op": "remote", "late": late, "text": text, "where": where, "defer": defer, "body": body},
+                    st.sampled_from([False, False, True]),
                     st.booleans(),
                     st.sampled_from(["inline", "inline", "thread"]),
                     st.sampled_from([0, 0, 1, 2, 5]),
